@@ -634,16 +634,20 @@ func (sc *scenario) view(dir string) (string, string) {
 		}
 		return true
 	}
-	onlyVersion := func(g int, docs map[string]int) bool {
-		if len(docs) == 0 {
+	// the repository is listed (once, with the generation's branch version) exactly when the index has a shard for it,
+	// even if every document of that shard is tombstoned
+	onlyVersion := func(g int, hasShards bool) bool {
+		if !hasShards {
 			return len(versions) == 0
 		}
 		return len(versions) == 1 && versions[f1util.Version(g)] > 0
 	}
-	if same(got, sc.newSet) && onlyVersion(sc.spec.Gen, sc.newSet) {
+	oldHas := sc.tpl.NOld > 0 || sc.tpl.Compound
+	newHas := sc.nNew > 0 || (sc.cs.Delta && sc.tpl.NOld > 0)
+	if same(got, sc.newSet) && onlyVersion(sc.spec.Gen, newHas) {
 		return "new", ""
 	}
-	if same(got, sc.oldSet) && onlyVersion(sc.tpl.Gen, sc.oldSet) {
+	if same(got, sc.oldSet) && onlyVersion(sc.tpl.Gen, oldHas) {
 		return "old", ""
 	}
 	why := fmt.Sprintf("searcher sees %d file(s), listed versions %v; old index has %d, new index has %d", len(got), versions, len(sc.oldSet), len(sc.newSet))
